@@ -190,3 +190,29 @@ mut("c19-clear-period-off-by-one", "C19", APP, "                if remainder > 0
 mut("c19-ezsp-error-not-counted", "C19", APP, "        except (asyncio.TimeoutError, EzspError) as exc:", "        except asyncio.TimeoutError as exc:")
 mut("c19-reset-in-finally", "C19", APP, "            self._watchdog_failures += 1\n            if self._watchdog_failures > MAX_WATCHDOG_FAILURES:\n                self.state.counters[COUNTERS_CTRL][COUNTER_WATCHDOG].increment()\n                raise",
     "            self._watchdog_failures += 1\n            if self._watchdog_failures > MAX_WATCHDOG_FAILURES:\n                self.state.counters[COUNTERS_CTRL][COUNTER_WATCHDOG].increment()\n                self._watchdog_failures = 0\n                raise")
+
+# ---- C17 -------------------------------------------------------------------------------
+mut("c17-form-listener-after-command", "C17", EZ,
+    "        with self.wait_for_stack_status(t.sl_Status.NETWORK_UP) as stack_status:\n            v = await self._command(\"formNetwork\", parameters=parameters)\n\n            if t.sl_Status.from_ember_status(v[0]) != t.sl_Status.OK:\n                raise zigpy.exceptions.FormationFailure(f\"Failure forming network: {v}\")\n\n            async with asyncio_timeout(NETWORK_OPS_TIMEOUT):\n                await stack_status",
+    "        v = await self._command(\"formNetwork\", parameters=parameters)\n\n        if t.sl_Status.from_ember_status(v[0]) != t.sl_Status.OK:\n            raise zigpy.exceptions.FormationFailure(f\"Failure forming network: {v}\")\n\n        with self.wait_for_stack_status(t.sl_Status.NETWORK_UP) as stack_status:\n            async with asyncio_timeout(NETWORK_OPS_TIMEOUT):\n                await stack_status")
+mut("c17-scan-callback-not-removed", "C17", EZ,
+    "        finally:\n            self.remove_callback(cbid)\n\n        return results", "        finally:\n            pass\n\n        return results")
+mut("c17-scan-callback-after-command", "C17", EZ,
+    "        cbid = self.add_callback(cb)\n        try:\n            v = await self._command(name, *args, **kwargs)",
+    "        cbid = None\n        try:\n            v = await self._command(name, *args, **kwargs)\n            cbid = self.add_callback(cb)")
+mut("c17-listener-not-removed", "C17", EZ,
+    "        try:\n            yield future\n        finally:\n            with contextlib.suppress(ValueError):\n                listeners.remove(future)",
+    "        yield future")
+mut("c17-leave-ignores-refusal", "C17", EZ,
+    "            if status != t.sl_Status.OK:\n                raise EzspError(f\"failed to leave network: {status.name}\")\n", "")
+mut("c17-any-status-event-completes", "C17", EZ,
+    "        for listener in self._stack_status_listeners[status]:\n            listener.set_result(status)",
+    "        for lst in list(self._stack_status_listeners.values()):\n            for listener in list(lst):\n                listener.set_result(status)")
+mut("c17-bringup-listener-after-init", "C17", APP,
+    "        with self._ezsp.wait_for_stack_status(t.sl_Status.NETWORK_UP) as stack_status:\n            init_status = await self._ezsp.initialize_network()\n",
+    "        init_status = await self._ezsp.initialize_network()\n        with self._ezsp.wait_for_stack_status(t.sl_Status.NETWORK_UP) as stack_status:\n")
+mut("c17-form-timeout-from-issue", "C17", EZ,
+    "            v = await self._command(\"formNetwork\", parameters=parameters)\n\n            if t.sl_Status.from_ember_status(v[0]) != t.sl_Status.OK:\n                raise zigpy.exceptions.FormationFailure(f\"Failure forming network: {v}\")\n\n            async with asyncio_timeout(NETWORK_OPS_TIMEOUT):\n                await stack_status",
+    "            async with asyncio_timeout(NETWORK_OPS_TIMEOUT):\n                v = await self._command(\"formNetwork\", parameters=parameters)\n\n                if t.sl_Status.from_ember_status(v[0]) != t.sl_Status.OK:\n                    raise zigpy.exceptions.FormationFailure(f\"Failure forming network: {v}\")\n\n                await stack_status")
+mut("c06-stale-awaiting-entry", "C06", PROTO,
+    "                if seq in self._awaiting and self._awaiting[seq][2] is future:\n                    del self._awaiting[seq]", "                pass", checks=["C06", "C17"])
